@@ -17,7 +17,7 @@ Subset (anything else raises Unsupported, exit 3 - the tie is then reported brok
   def with positional parameters (defaults must be constants); docstring; `x = e`; `return e`; `if c: raise Exc(...)`;
   `if c: x = e` (conditional re-assignment, no else); `if c: <block ending in return / raise> else: <block ending in return / raise>`;
   `acc = []` + `for v in xs: <assignments>; acc.append(e)` (map);  `for v in xs: t = e` with t already bound (fold);  subscripts `x[i]`;
-  `self.m(..)` where Class.m is itself listed is a call of the regenerated method;
+  `self.m(..)` where Class.m is itself listed is a call of the regenerated method; `[e for a, b in itertools.product(X, Y)]`, `[e for v in xs]`;
   expressions: names, constants, attributes, calls (positional + keyword), method calls, tuples, binary / boolean / comparison / unary-not
   operators, conditional expressions, f-strings only inside `raise`.
 A call to a function that is itself in the list is translated as a call of the regenerated definition (arguments bound by position / keyword,
@@ -54,10 +54,23 @@ TARGETS = [   # (file, qualified name); order irrelevant, emitted in dependency 
     ("quara/objects/gate.py", "Gate.to_choi_matrix_with_sparsity"),
     ("quara/objects/gate.py", "Gate.to_kraus_matrices"),
     ("quara/objects/gate.py", "Gate.to_process_matrix"),
+    ("quara/objects/gate.py", "convert_hs"),
+    ("quara/objects/gate.py", "Gate.convert_basis"),
+    ("quara/objects/gate.py", "Gate.convert_to_comp_basis"),
+    ("quara/objects/matrix_basis.py", "convert_vec"),
+    ("quara/objects/state.py", "State.convert_basis"),
+    ("quara/objects/povm.py", "Povm.convert_basis"),
+    ("quara/objects/mprocess.py", "MProcess.hs"),
+    ("quara/objects/mprocess.py", "MProcess.to_choi_matrix"),
+    ("quara/objects/mprocess.py", "MProcess.to_choi_matrix_with_dict"),
+    ("quara/objects/mprocess.py", "MProcess.to_choi_matrix_with_sparsity"),
+    ("quara/objects/mprocess.py", "MProcess.to_kraus_matrices"),
+    ("quara/objects/mprocess.py", "MProcess.to_process_matrix"),
 ]
-MODULES = {"np", "mutil", "matrix_util", "sparse", "Settings", "itertools"}
+MODULES = {"np", "mutil", "matrix_util", "sparse", "Settings", "itertools", "gate"}
+IMPORTED = {"convert_vec": "quara/objects/matrix_basis.py"}      # names imported from another module that is in the list
 BUILTIN_CONSTS = {"tuple", "int", "list", "float"}      # type objects compared with type(x)
-MODULE_ALIAS = {"mutil": "quara/utils/matrix_util.py", "matrix_util": "quara/utils/matrix_util.py"}
+MODULE_ALIAS = {"mutil": "quara/utils/matrix_util.py", "matrix_util": "quara/utils/matrix_util.py", "gate": "quara/objects/gate.py"}
 
 
 class Unsupported(Exception):
@@ -159,6 +172,26 @@ class Tr:
             return self.app("subscr", [self.expr(e.value, env), self.expr(e.slice, env)])
         if isinstance(e, ast.IfExp):
             return self.app("ite", [self.expr(e.test, env), self.expr(e.body, env), self.expr(e.orelse, env)])
+        if isinstance(e, ast.ListComp):
+            if len(e.generators) != 1 or e.generators[0].ifs or e.generators[0].is_async:
+                fail(e, "comprehension form")
+            g = e.generators[0]
+            it = g.iter
+            if (isinstance(g.target, ast.Tuple) and len(g.target.elts) == 2 and all(isinstance(x, ast.Name) for x in g.target.elts)
+                    and isinstance(it, ast.Call) and isinstance(it.func, ast.Attribute) and isinstance(it.func.value, ast.Name)
+                    and it.func.value.id == "itertools" and it.func.attr == "product" and len(it.args) == 2 and not it.keywords):
+                self.fresh += 1
+                a, b = ["%s_%d" % (ident(x.id), self.fresh) for x in g.target.elts]
+                env2 = dict(env); env2[g.target.elts[0].id] = a; env2[g.target.elts[1].id] = b
+                self.cx.sym("list_map_product", -2)
+                return "(list_map_product s (fun %s %s => %s) %s %s)" % (a, b, self.expr(e.elt, env2), self.expr(it.args[0], env), self.expr(it.args[1], env))
+            if isinstance(g.target, ast.Name):
+                self.fresh += 1
+                v = "%s_%d" % (ident(g.target.id), self.fresh)
+                env2 = dict(env); env2[g.target.id] = v
+                self.cx.sym("list_map", -1)
+                return "(list_map s (fun %s => %s) %s)" % (v, self.expr(e.elt, env2), self.expr(it, env))
+            fail(e, "comprehension form")
         if isinstance(e, ast.Call):
             return self.call(e, env)
         fail(e, "expression outside the subset")
@@ -175,6 +208,8 @@ class Tr:
         target = None
         if isinstance(f, ast.Name) and f.id not in env:
             target = (self.file, f.id)
+            if target not in self.cx.funs and f.id in IMPORTED:
+                target = (IMPORTED[f.id], f.id)
             base = "call_" + f.id
         elif isinstance(f, ast.Attribute) and isinstance(f.value, ast.Name) and f.value.id in MODULES and f.value.id not in env:
             if f.value.id in MODULE_ALIAS:
@@ -224,6 +259,8 @@ class Tr:
             if st.value is None:
                 fail(st, "bare return")
             return self.expr(st.value, env)
+        if isinstance(st, ast.AnnAssign) and st.value is not None and isinstance(st.target, ast.Name):
+            st = ast.Assign(targets=[st.target], value=st.value, lineno=st.lineno)
         if isinstance(st, ast.Assign):
             if len(st.targets) != 1 or not isinstance(st.targets[0], ast.Name):
                 fail(st, "assignment target")
